@@ -15,7 +15,7 @@ func (f *Formatter) formatAclDeclaration(decl *ast.AclDeclaration) *Declaration 
 	lines := DeclarationPropertyLines{}
 
 	for _, cidr := range decl.CIDRs {
-		if cidr.GetMeta().PreviousEmptyLines > 0 {
+		if startsGroup(cidr.GetMeta()) {
 			group.Lines = append(group.Lines, lines)
 			lines = DeclarationPropertyLines{}
 		}
@@ -68,7 +68,7 @@ func (f *Formatter) formatAclDeclaration(decl *ast.AclDeclaration) *Declaration 
 	return &Declaration{
 		Type:   Acl,
 		Name:   decl.Name.Value,
-		Buffer: buf.String(),
+		Buffer: trimMultipleLineFeeds(buf.String()),
 	}
 }
 
@@ -88,7 +88,7 @@ func (f *Formatter) formatBackendDeclaration(decl *ast.BackendDeclaration) *Decl
 	return &Declaration{
 		Type:   Backend,
 		Name:   decl.Name.Value,
-		Buffer: buf.String(),
+		Buffer: trimMultipleLineFeeds(buf.String()),
 	}
 }
 
@@ -98,7 +98,7 @@ func (f *Formatter) formatBackendProperties(props []*ast.BackendProperty, nestLe
 	lines := DeclarationPropertyLines{}
 
 	for _, prop := range props {
-		if prop.GetMeta().PreviousEmptyLines > 0 {
+		if startsGroup(prop.GetMeta()) {
 			if f.conf.AlignDeclarationProperty {
 				lines.AlignKey()
 			}
@@ -153,7 +153,7 @@ func (f *Formatter) formatDirectorDeclaration(decl *ast.DirectorDeclaration) *De
 	lines := DeclarationPropertyLines{}
 
 	for _, prop := range decl.Properties {
-		if prop.GetMeta().PreviousEmptyLines > 0 {
+		if startsGroup(prop.GetMeta()) {
 			if f.conf.AlignDeclarationProperty {
 				lines.AlignKey()
 			}
@@ -226,7 +226,7 @@ func (f *Formatter) formatDirectorDeclaration(decl *ast.DirectorDeclaration) *De
 	return &Declaration{
 		Type:   Director,
 		Name:   decl.Name.Value,
-		Buffer: buf.String(),
+		Buffer: trimMultipleLineFeeds(buf.String()),
 	}
 }
 
@@ -250,7 +250,7 @@ func (f *Formatter) formatTableDeclaration(decl *ast.TableDeclaration) *Declarat
 	return &Declaration{
 		Type:   Table,
 		Name:   decl.Name.Value,
-		Buffer: buf.String(),
+		Buffer: trimMultipleLineFeeds(buf.String()),
 	}
 }
 
@@ -260,7 +260,7 @@ func (f *Formatter) formatTableProperties(props []*ast.TableProperty) string {
 	lines := DeclarationPropertyLines{}
 
 	for _, prop := range props {
-		if prop.PreviousEmptyLines > 0 {
+		if startsGroup(prop.Meta) {
 			if f.conf.AlignDeclarationProperty {
 				lines.AlignKey()
 			}
